@@ -204,6 +204,7 @@ func ruleSenderExcluded(r *Run) {
 // isJoinLocalSession: a local variable whose every definition is SessionStore.GetByGlobalID(<request
 // session id>) or models.NewSession(...): the session being joined.
 func (r *Run) isJoinLocalSession(fn *Func, x ast.Expr) bool {
+	fn, x = resolveBound(fn, x)
 	id, ok := ast.Unparen(x).(*ast.Ident)
 	if !ok {
 		return false
@@ -233,6 +234,34 @@ func (r *Run) isJoinLocalSession(fn *Func, x ast.Expr) bool {
 		}
 	}
 	return true
+}
+
+// resolveBound: when x is a parameter of a looked-into helper instance, the caller and the argument
+// expression it is bound to (repeatedly); otherwise fn and x unchanged.
+func resolveBound(fn *Func, x ast.Expr) (*Func, ast.Expr) {
+	for i := 0; i < 6; i++ {
+		id, ok := ast.Unparen(x).(*ast.Ident)
+		if !ok {
+			return fn, x
+		}
+		vr, ok := fn.Info().Uses[id].(*types.Var)
+		if !ok || !isParamOf(fn, vr) {
+			return fn, x
+		}
+		moved := false
+		for f := fn; f != nil; f = f.Outer {
+			if k := paramIndex(f, vr); k >= 0 {
+				if f.bind != nil && f.bind.call != nil && k < len(f.bind.call.Args) {
+					fn, x, moved = f.bind.caller, f.bind.call.Args[k], true
+				}
+				break
+			}
+		}
+		if !moved {
+			return fn, x
+		}
+	}
+	return fn, x
 }
 
 // throughLocals follows single-assignment locals to the expression that defines them.
